@@ -90,7 +90,8 @@ def strsOf : List PyVal → Option (List Str)
 
 /-- `sorted(xs)` for strings (code-point order; stable, which is unobservable for equal strings) -/
 def sorted_ (xs : PyVal) : M PyVal := do
-  match strsOf (← iterate xs) with
+  -- the result does not depend on the order in which a set hands out its members
+  match strsOf (← (match PyRx.setItems xs with | some l => pure l | Option.none => iterate xs)) with
   | some ss => pure (.list ((sortBy strLe ss).map .str))
   | Option.none => throw "PyRtUnsupported"
 
